@@ -20,6 +20,7 @@ import (
 
 	v1 "sigs.k8s.io/karpenter/pkg/apis/v1"
 	"sigs.k8s.io/karpenter/pkg/cloudprovider"
+	"sigs.k8s.io/karpenter/pkg/controllers/nodepool/hash"
 	provscheduling "sigs.k8s.io/karpenter/pkg/controllers/provisioning/scheduling"
 	"sigs.k8s.io/karpenter/pkg/operator/options"
 	"sigs.k8s.io/karpenter/pkg/scheduling"
@@ -107,6 +108,31 @@ func run(r *mon.Report, tier string, idx int, rng *rand.Rand) {
 	}
 	if accepted == 0 {
 		return
+	}
+	// interleaving: the hash controller stamps the NodePool, then the template is edited and NodeClaims are built
+	// BEFORE the hash controller sees the edit; the NodeClaim must carry the hash of the template it was built from
+	if rng.Intn(2) == 0 {
+		hc := hash.NewController(e.API.Client, e.Provider)
+		for _, np := range s.Pools {
+			cur := &v1.NodePool{}
+			if e.API.Raw.Get(context.Background(), types.NamespacedName{Name: np.Name}, cur) == nil {
+				_, _ = hc.Reconcile(e.Ctx, cur)
+			}
+		}
+		r.Inc("hash_controller_stamped_before_create")
+		if rng.Intn(2) == 0 {
+			for _, np := range s.Pools {
+				cur := &v1.NodePool{}
+				if e.API.Raw.Get(context.Background(), types.NamespacedName{Name: np.Name}, cur) == nil {
+					if cur.Spec.Template.Labels == nil {
+						cur.Spec.Template.Labels = map[string]string{}
+					}
+					cur.Spec.Template.Labels["example.com/rev"] = fmt.Sprint(rng.Intn(1000))
+					e.Apply(cur)
+				}
+			}
+			r.Inc("template_edited_after_stamp_before_create")
+		}
 	}
 	// pods: plain ones plus ones whose selectors mention the pools' custom keys so that custom requirements narrow
 	nb := 1 + rng.Intn(8)
